@@ -161,6 +161,40 @@ def lit_suites(ctx):
     return [lit, pe]
 
 
+SURFACE_FNS = ["abs", "all", "any", "ascii", "bin", "bool", "bytearray", "bytes", "callable", "chr", "complex", "dict", "divmod", "enumerate", "filter", "float",
+               "format", "frozenset", "getattr", "hasattr", "hex", "int", "isinstance", "issubclass", "iter", "len", "list", "map", "max", "min", "next", "oct", "ord",
+               "pow", "range", "repr", "reversed", "round", "set", "slice", "sorted", "str", "sum", "super", "tuple", "zip", "StopIteration", "KeyError"]
+SURFACE_ARGS = ["()", "[]", "''", "0", "1", "-1", "'a'", "'a b'", "[1, 2]", "(1, 2)", "None", "2.5", "iter(())", "iter([1])", "zip()", "[0]", "255"]
+SURFACE_RECEIVERS = ["' '", "'a,b'", "'a b c'", "'x'", "'a\\tb'", "(255)", "b'ab'", "(2.5)", "'{}'", "'{k}'"]
+SURFACE_KW = ["sep=' '", "sep=','", "sep=''", "maxsplit=1", "tabsize=1", "encoding='utf-16-le'", "encoding='no-such-codec'", "length=2, byteorder='big'", "k=1", "keepends=True",
+              "errors='ignore'", "signed=True"]
+
+
+def surface_exprs():
+    """calls of the whitelisted builtins and of methods of constants on small literal arguments, positional and keyword:
+    the part of literal_value that evaluates by calling into Python"""
+    out = []
+    for f in SURFACE_FNS:
+        out.append(f"{f}()")
+        out += [f"{f}({a})" for a in SURFACE_ARGS]
+        out += [f"{f}({a}, {b})" for a in SURFACE_ARGS for b in SURFACE_ARGS]
+    for recv in SURFACE_RECEIVERS:
+        try:
+            val = eval(recv)
+        except Exception:  # noqa: BLE001
+            continue
+        for m in sorted(x for x in dir(type(val)) if not x.startswith("_")):
+            out.append(f"{recv}.{m}()")
+            out += [f"{recv}.{m}({a})" for a in SURFACE_ARGS]
+            out += [f"{recv}.{m}({k})" for k in SURFACE_KW]
+            out += [f"{recv}.{m}({a}, {k})" for a in ("' '", "1", "'a'") for k in SURFACE_KW]
+    wrap = ["not {}", "{} + 1", "{} and 1", "0 < {} < 2", "[{}]", "{} if 1 else 2", "-{}"]
+    inner = ["next(iter(()))", "next(zip())", "next(reversed([]))", "next(filter(None, [0]))", "super()", "' '.split(sep=' ')", "'a'.split(sep='')", "int('x')", "max([])", "chr(-1)",
+             "2.0 ** 10000", "hash([])", "'{}'.format()", "''.foo()", "(1).real()", "''.join(1)", "[][0]", "{}['a']", "().x"]
+    out += inner + [w.format(i) for w in wrap for i in inner]
+    return out
+
+
 def eval_oracle(ctx):
     """on the real code only: whenever literal_value returns a value it equals eval's; constant conditions are folded right"""
     from pyrefact import core, fixes
@@ -173,7 +207,12 @@ def eval_oracle(ctx):
              "1 < 3 < 2", "0 <= 7 <= 5", "1 == 1 != 1", "list(zip([1], [2]))", "list(reversed([1, 2]))", "round(2.5)", "divmod(7, 2)", "pow(2, 3)",
              "float('nan') == float('nan')", "1/0", "1 % 0", "None < 1", "1 + 'a'", "-'a'", "print(1)", "input()", "open('x')", "hash('a')", "id(1)"]
     exprs = [text(rand_expr(r)) for _ in range(ctx.n(1500, 20000))] + extra
-    for src in exprs:
+    surface = surface_exprs()
+    s.hist["surface-expressions"] = len(surface)
+    if not ctx.thorough:
+        tail = surface[-160:]
+        surface = r.sample(surface[:-160], 6000) + tail
+    for src in exprs + surface:
         s.cases += 1
         real = real_lit(src)
         if real["r"] == "crash":
@@ -183,12 +222,16 @@ def eval_oracle(ctx):
             continue
         s.nt(src)
         py = py_eval(src)
+        if " at 0x" in real["v"]:
+            if py["r"] != "ok":
+                s.disagreements.append({"expr": src, "what": f"literal_value({src!r}) = {real['v']} but Python evaluation gives {py['r']}"})
+            continue
         if py["r"] != "ok":
             s.disagreements.append({"expr": src, "what": f"literal_value({src!r}) = {real['v']} but Python evaluation gives {py['r']}"})
         elif py["v"] != real["v"] and "nan" not in src:
             s.disagreements.append({"expr": src, "what": f"literal_value({src!r}) = {real['v']} but Python computes {py['v']}"})
     # consumers: a constant condition is folded to the branch Python takes
-    for src in exprs[: ctx.n(300, 3000)] + extra:
+    for src in exprs[: ctx.n(300, 3000)] + extra + surface[-160:] + r.sample(surface, ctx.n(400, 4000)):
         prog = f"def g(x, y):\n    if {src}:\n        return 'T'\n    else:\n        return 'F'\n"
         try:
             out = fixes.remove_dead_ifs(prog)
@@ -209,7 +252,7 @@ def eval_oracle(ctx):
                 res.append("EXC " + type(ex).__name__)
         if res[0] != res[1]:
             s.disagreements.append({"expr": src, "out": out, "what": f"remove_dead_ifs folds 'if {src}' to the wrong branch: {res[0]} -> {res[1]}"})
-    s.note = "random in-fragment expressions + 50 out-of-fragment ones (floats, methods, dict/set, shifts, chained comparisons, iterators, effectful builtins): literal_value(e) == eval(e) whenever a value is returned, never a non-ValueError exception; and 'if e:' folded by remove_dead_ifs executes like the original"
+    s.note = "random in-fragment expressions + 50 out-of-fragment ones (floats, methods, dict/set, shifts, chained comparisons, iterators, effectful builtins) + the call surface (47 whitelisted builtins x 0-2 small arguments, every public method of 10 constant receivers x positional / keyword arguments, raising expressions in 7 contexts): literal_value(e) == eval(e) whenever a value is returned, never a non-ValueError exception; and 'if e:' folded by remove_dead_ifs executes like the original"
     return s
 
 
